@@ -34,6 +34,55 @@ def call(fn, *a):
         return common.exc_class(e)
 
 
+def slot_cases(rng, n):
+    """every typed slot of a statement / rule / bucket, holding in turn an intrinsic function (valid there), a value of the
+    wrong kind, and — for condition blocks — both spellings of one operator with blocks that are not objects"""
+    fns = [{"Ref": "P"}, {"Fn::If": ["C", "Allow", "Deny"]}, {"Fn::Sub": "${P}-x"}, {"Fn::Join": ["", ["a", {"Ref": "P"}]]}, {"Fn::FindInMap": ["M", "a", "b"]},
+           {"Fn::GetAtt": ["R", "Arn"]}, {"Fn::Select": [0, ["a"]]}, {"Fn::ImportValue": "x"}, {"Condition": "C"}]
+    wrong = [None, True, 5, 1.5, [], {}, [[]], {"a": "b"}, ["a", 5], "", "text", 2**70]
+    out = []
+    for _ in range(n):
+        v = copy.deepcopy(rng.choice(fns + wrong if rng.random() < 0.8 else wrong))
+        k = rng.randrange(5)
+        if k == 0:
+            st = {"Effect": "Allow", "Action": "s3:GetObject", "Resource": "*", "Principal": {"AWS": "*"}, "Sid": "s", "Condition": {"StringEquals": {"k": "v"}}}
+            slot = rng.choice(["Effect", "Action", "Resource", "Principal", "Sid", "Condition", "NotAction", "NotResource", "NotPrincipal"])
+            if slot == "Principal" and rng.random() < 0.5:
+                st["Principal"] = {rng.choice(["AWS", "Service", "Federated", "CanonicalUser"]): v}
+            else:
+                st[slot] = v
+            doc = {"Version": rng.choice(["2012-10-17", v]) if rng.random() < 0.2 else "2012-10-17", "Statement": rng.choice([[st], st])}
+            res = rng.choice([{"Type": "AWS::IAM::ManagedPolicy", "Properties": {"PolicyDocument": doc}}, {"Type": "Custom::Holder", "Properties": {"Policy": {"PolicyDocument": doc}}},
+                              {"Type": "AWS::IAM::Role", "Properties": {"AssumeRolePolicyDocument": doc, "Policies": [{"PolicyName": rng.choice(["n", v]) if rng.random() < 0.2 else "n", "PolicyDocument": doc}]}}])
+        elif k == 1:
+            op = rng.choice(["StringEquals", "ForAnyValue:StringEquals", "Bool", "IpAddress", "BinaryEquals", "DateLessThan", "NumericEquals", "Null", "ArnLike"])
+            blk = {op: rng.choice([{"k": v}, v, {"k": [v, "x"]}])}
+            if rng.random() < 0.4:
+                # both spellings of one operator; either block may be anything
+                a, b = "ForAnyValue:StringEquals", "ForAnyValueStringEquals"
+                blk = {a: rng.choice([{"aws:TagKeys": ["t"]}, v]), b: rng.choice([v, {"k": "x"}])}
+                if rng.random() < 0.5:
+                    blk = dict(reversed(list(blk.items())))
+            st = {"Effect": "Allow", "Action": "s3:*", "Resource": "*", "Condition": blk}
+            res = rng.choice([{"Type": "AWS::SQS::QueuePolicy", "Properties": {"Queues": ["q"], "PolicyDocument": {"Statement": [st]}}}, {"Type": "Custom::Holder", "Properties": {"Statement": st}}])
+        elif k == 2:
+            rule = {"IpProtocol": "tcp", "FromPort": 22, "ToPort": 22, "CidrIp": "10.0.0.0/8"}
+            rule[rng.choice(["IpProtocol", "FromPort", "ToPort", "CidrIp", "CidrIpv6", "Description", "SourceSecurityGroupId"])] = v
+            res = rng.choice([{"Type": "AWS::EC2::SecurityGroup", "Properties": {"GroupDescription": "d", "SecurityGroupIngress": rng.choice([[rule], rule]), "SecurityGroupEgress": [rule]}},
+                              {"Type": "AWS::EC2::SecurityGroupIngress", "Properties": dict(rule, GroupId="g")}, {"Type": "AWS::RDS::DBSecurityGroupIngress", "Properties": {"DBSecurityGroupName": "n", "CIDRIP": v}}])
+        elif k == 3:
+            props = {"BucketName": "b", "Tags": [{"Key": "k", "Value": "v"}], "PublicAccessBlockConfiguration": {"BlockPublicAcls": True}}
+            slot = rng.choice(["BucketName", "Tags", "AccessControl", "PublicAccessBlockConfiguration", "VersioningConfiguration"])
+            props[slot] = rng.choice([v, [{"Key": v, "Value": "v"}], {"BlockPublicAcls": v}]) if slot in ("Tags", "PublicAccessBlockConfiguration") else v
+            res = {"Type": "AWS::S3::Bucket", "Properties": props}
+        else:
+            res = {"Type": "AWS::KMS::Key", "Properties": {"KeyPolicy": {"Statement": [{"Effect": "Allow", "Action": "kms:*", "Resource": "*", "Principal": "*"}]}, rng.choice(["EnableKeyRotation", "Enabled", "PendingWindowInDays", "Description", "MultiRegion"]): v}}
+            if rng.random() < 0.3:
+                res[rng.choice(["DependsOn", "Condition", "DeletionPolicy", "Metadata"])] = v
+        out.append(("slot", {"Parameters": {"P": {"Type": "String", "Default": "p"}}, "Conditions": {"C": {"Fn::Equals": ["a", "a"]}}, "Mappings": {"M": {"a": {"b": "c"}}}, "Resources": {"R": res}}, 10.0))
+    return out
+
+
 def damage(rng, t):
     """one hostile change somewhere in an otherwise valid template"""
     t = copy.deepcopy(t)
@@ -163,6 +212,7 @@ def run(report, tier, seed, driver, proofs_ok):
             r, _ = gen.gen_iam_resource(rng, tag=f"x{i}", with_condition=True)
             t["Resources"]["Iam"] = r
         cases.append(("damaged", damage(rng, t), 10.0))
+    cases += slot_cases(rng, 400 if thorough else 150)
     depths = [50, 200, 400, 600, 1000, 3000, 5000, 20000] if thorough else [50, 400, 1000, 5000]
     deep_ops = []
     for d in depths:
